@@ -1,7 +1,7 @@
 (* Extraction of the handshake models (state machines, honest pair runs, version gate, byte-level parsers)
    for the correspondence runner ocaml/hs.  Directives used: those of ExtrOcamlBasic only. *)
 From Coq Require Import Extraction ExtrOcamlBasic List NArith.
-From GmsmVerif Require Import Lib.Outcome HS.HSTerms HS.HSModel HS.HSParsers HS.HSMsgParsers HS.HSMsgMarshal HS.HSSigAlg HS.HSKxParsers.
+From GmsmVerif Require Import Lib.Outcome HS.HSTerms HS.HSModel HS.HSParsers HS.HSMsgParsers HS.HSMsgMarshal HS.HSSigAlg HS.HSKxParsers HS.HSCompression.
 Extraction Language OCaml.
 Extraction "hs_model.ml"
   client_run server_run client_step server_step client_init server_init pair_run pair_loop pair_run_t feed to_input version_gate
@@ -15,4 +15,4 @@ Extraction "hs_model.ml"
   clientHello_marshal serverHello_marshal certificate_marshal serverKeyExchange_marshal clientKeyExchange_marshal
   finished_marshal serverHelloDone_marshal newSessionTicket_marshal certificateStatus_marshal nextProto_marshal
   certificateRequest_marshal certificateRequestGM_marshal certificateVerify_marshal ecc_skx_body ecc_ckx_body
-  pickSignatureAlgorithm hashForClientCertificate hashForServerKeyExchange gm_client_certificate_verify_digest ecdhe_processServerKeyExchange.
+  pickSignatureAlgorithm hashForClientCertificate hashForServerKeyExchange gm_client_certificate_verify_digest ecdhe_processServerKeyExchange comp_offers_null.
